@@ -1,5 +1,5 @@
 # replay of a bounded stand-in violation (C16): re-run native/c16_states.py
 import sys
-print('bosonic n=3 pure=False gaussian: reduced_dm([1]) has shape (8, 8, 8, 8, 8, 8), expected two indices per mode')
+print('n=2 pure=True cat-complex: quad_expectation(1,0.0) = [0.62239, 2.27449] on bosonic, [-0.02294, 1.93709] on fock')
 print('REPLAY-VIOLATION')
 sys.exit(1)
